@@ -9,3 +9,10 @@ pub fn tidy(s: &str) -> String {
     }
     t.replace("-><", "-> <")
 }
+
+/// global byte offsets of a span in proc-macro2's fallback source map (`byte_range()` is file-relative; the Debug form is global)
+pub fn global_range(sp: proc_macro2::Span) -> Option<(usize, usize)> {
+    let d = format!("{:?}", sp);
+    let i = d.find("bytes(")?; let rest = &d[i + 6..]; let j = rest.find(')')?; let (a, b) = rest[..j].split_once("..")?;
+    Some((a.parse().ok()?, b.parse().ok()?))
+}
